@@ -83,6 +83,9 @@ MISSED_FIRST = {  # the property's own check missed it before it was strengthene
     "C19-j": "C19: droplets cut by a wall of a non-periodic box (fitted centre outside the grid) in the table",
     "C20-j": "C20: nearest-time lookup after clear() and refilling the same object with as many members at other times",
     "C20-g": "C20: consistency requested while droplets arrive through another collection (extend / constructor with a mixed Emulsion)",
+    "C04-j": "C04: candidates / droplets centred OUTSIDE the box along a non-periodic axis (cut by a wall); before that only the diverging correspondence was reported (no-failing-input-found)",
+    "C05-j": "C05: intensity maps below numpy's default tolerances (range 4e-9; contrast 0.05 on a background of 1e4) in the cycled maps; before that only the broken obligation residual_scale was reported",
+    "C11-k": "C11: droplets far from the origin relative to their separation (2e6 +- 5), a unit of length of 1e-9, droplets on a common axis; every coordinate sent to the model; tolerances relative to the operands; before that only the broken translation was reported",
 }
 rows = []
 for d in sorted(ROOT.iterdir()):
